@@ -57,6 +57,11 @@ def validate_traces(v: Verdict, spec: str, invariants: list[str], records: list[
     Returns the number of traces accepted."""
     if not records:
         return 0
+    # tie-explosion guard (see rec_pipeline.tie_risk): such inputs are skipped and counted
+    kept = [r for r in records if r.get("meta", {}).get("tie_risk", 0) <= 18]
+    if len(kept) != len(records):
+        v.cov["skipped_tie_explosion"] = v.cov.get("skipped_tie_explosion", 0) + len(records) - len(kept)
+        records = kept
     sdir = common.scratch(v.prop)
     accepted = 0
     cfg = str(sdir / "trace.cfg")
